@@ -313,6 +313,30 @@ pub fn run(rep: &Report) -> serde_json::Value {
             }
         }
     }
+    // F12: FLOAT_EXT texts (31 bytes, NUL padded): every shape a float-text reader may stumble over
+    for text in ["", "e", "E", ".", "-", "+", "1", "1.", ".5", "1.5e", "1.5e+", "1.5e-", "1.5E5", "1e5", "1.5e5", "1.50000000000000000000e+00", "-1.50000000000000000000e-300", "1e309", "-1e309", "nan", "NaN", "inf", "-inf", "infinity",
+        "0x1p3", " 1.5", "1.5 ", "1,5", "1.5e5e5", "1..5", "--1", "1e+", "e5", "9999999999999999999999999999999", "1.5e99999999999999999999999999", "\u{e9}1.5"] {
+        let mut b = vec![131u8, 99];
+        let mut t = text.as_bytes().to_vec(); t.truncate(31); t.resize(31, 0);
+        b.extend_from_slice(&t);
+        for &e in &[0u8, 1, 2, 3] { inputs.push(Input { family: "F12-float-texts", entry: e, bytes: b.clone(), inflated: 0, over_declared: false, depth: 0 }); }
+        let mut in_list = vec![131u8, 108, 0, 0, 0, 1, 99]; in_list.extend_from_slice(&t); in_list.push(106);
+        for &e in &[0u8, 1] { inputs.push(Input { family: "F12-float-texts", entry: e, bytes: in_list.clone(), inflated: 0, over_declared: false, depth: 0 }); }
+    }
+    // F13: one wrapper or small term repeated many times in a list (whatever a parser sets aside per term adds up)
+    for n in [10usize, 200, 2000] {
+        let units: Vec<Vec<u8>> = vec![
+            { let mut u = vec![121u8, 1, 2, 3, 4, 5, 6, 7, 8, 88, 119, 3, b'n', b'@', b'h']; u.extend_from_slice(&[0, 0, 0, 1, 0, 0, 0, 2, 0, 0, 0, 3]); u },
+            { let mut u = vec![121u8, 1, 2, 3, 4, 5, 6, 7, 8, 90, 0, 1, 119, 3, b'n', b'@', b'h']; u.extend_from_slice(&[0, 0, 0, 1, 0, 0, 0, 2]); u },
+            vec![88, 119, 3, b'n', b'@', b'h', 0, 0, 0, 1, 0, 0, 0, 2, 0, 0, 0, 3], vec![119, 3, b'a', b'b', b'c'], vec![109, 0, 0, 0, 2, 1, 2], vec![110, 2, 0, 1, 1], vec![113, 119, 1, b'm', 119, 1, b'f', 97, 1],
+        ];
+        for u in &units {
+            let mut b = vec![131u8, 108]; b.extend_from_slice(&(n as u32).to_be_bytes());
+            for _ in 0..n { b.extend_from_slice(u); }
+            b.push(106);
+            for &e in &[0u8, 1, 2] { if e == 1 && u[0] == 121 { continue; } inputs.push(Input { family: "F13-repeated-terms", entry: e, bytes: b.clone(), inflated: 0, over_declared: false, depth: 0 }); }
+        }
+    }
     // F11: maps of two keys over list-shaped and other keys in unusual but admissible encodings (the decoder compares keys
     // while it builds the map)
     {
@@ -371,6 +395,29 @@ pub fn run(rep: &Report) -> serde_json::Value {
             }
             Outcome::Died => rep.violation("decoder aborted the process", detail()),
         }
+    }
+    // every input of at most 2 KiB once more with diagnostics switched on in the child (a logger and a tracing subscriber
+    // that format every argument): what the library prints about an input must not be able to hurt it either
+    {
+        let small: Vec<usize> = (0..inputs.len()).filter(|&i| inputs[i].bytes.len() <= 2048 && inputs[i].entry != 9).collect();
+        let feed: Vec<(u8, Vec<u8>)> = small.iter().map(|&i| (inputs[i].entry, inputs[i].bytes.clone())).collect();
+        probe::WITH_DIAGNOSTICS.store(true, std::sync::atomic::Ordering::SeqCst);
+        let results = probe::run_all(&feed, 16);
+        probe::WITH_DIAGNOSTICS.store(false, std::sync::atomic::Ordering::SeqCst);
+        let mut n = 0u64;
+        for (k, &i) in small.iter().enumerate() {
+            let (inp, r) = (&inputs[i], &results[k]);
+            rep.add("evaluations", 1);
+            n += 1;
+            let detail = || json!({"family": inp.family, "diagnostics": "log + tracing at the most verbose level", "entry": probe::ENTRIES[inp.entry as usize], "len": inp.bytes.len(), "bytes": hex(&inp.bytes), "outcome": format!("{:?}", r.outcome), "note": r.note});
+            match r.outcome {
+                Outcome::Ok | Outcome::Err => {}
+                Outcome::Panic => rep.violation("decoder panicked", detail()),
+                Outcome::StackOverflow => rep.violation("stack overflow on a 2 MiB thread", detail()),
+                Outcome::Died => rep.violation("decoder aborted the process", detail()),
+            }
+        }
+        fam.insert("all inputs <= 2 KiB with diagnostics on".into(), n);
     }
     // the same nesting paths around the decoder's depth limit through the unoptimised build of this program (the profile
     // `cargo test` and `cargo run` use: its stack frames are several times larger than the optimised ones)
